@@ -87,17 +87,50 @@ pub fn binary_stop() { BINARY.with(|b| *b.borrow_mut() = None); }
 /// Connection failures and time-outs seen since the last call (the affected cases were judged on the in-process route instead).
 pub fn binary_trouble() -> Vec<String> { BINARY_TROUBLE.with(|t| std::mem::take(&mut *t.borrow_mut())) }
 
-/// None when no binary is running on this thread, or when the exchange did not complete (recorded as trouble: inconclusive, never a verdict).
-pub fn serve_binary(req: &[u8]) -> Option<ServeOut> {
+/// What the binary did with one request.
+pub enum BinaryAnswer {
+    /// the exchange completed (possibly with zero bytes)
+    Served(ServeOut),
+    /// the request was sent twice and both times nothing at all came back within the limit although the connection stayed open:
+    /// the server is waiting for something the client already said it would not send
+    Silent,
+    /// no binary on this thread, or the exchange failed for another reason (recorded as trouble: inconclusive, never a verdict)
+    Unavailable,
+}
+
+thread_local! { static BINARY_SUSPECT: std::cell::Cell<bool> = std::cell::Cell::new(false); }
+
+pub fn serve_binary_checked(req: &[u8]) -> BinaryAnswer {
     BINARY.with(|b| {
         let b = b.borrow();
-        let s = b.as_ref()?;
-        let x = s.roundtrip(req, std::time::Duration::from_secs(30));
+        let s = match b.as_ref() { Some(s) => s, None => return BinaryAnswer::Unavailable };
+        // 30 s for the first attempt; once a silent exchange has been seen on this thread later ones get 1 s (shrinking re-runs the failing case many times)
+        let suspect = BINARY_SUSPECT.with(|x| x.get());
+        let first = std::time::Duration::from_secs(if suspect { 1 } else { 30 });
+        let x = s.roundtrip(req, first);
         match x.outcome {
-            super::net::Outcome::Closed | super::net::Outcome::Reset(_) => Some(ServeOut { out: x.bytes, result: Ok(Ok(())), write_calls: 0, flush_calls: 0 }),
-            other => { BINARY_TROUBLE.with(|t| t.borrow_mut().push(format!("{:?} after {} response bytes", other, x.bytes.len()))); None }
+            super::net::Outcome::Closed | super::net::Outcome::Reset(_) => BinaryAnswer::Served(ServeOut { out: x.bytes, result: Ok(Ok(())), write_calls: 0, flush_calls: 0 }),
+            super::net::Outcome::TimedOut if x.bytes.is_empty() => {
+                BINARY_SUSPECT.with(|v| v.set(true));
+                let again = s.roundtrip(req, std::time::Duration::from_secs(if suspect { 1 } else { 10 }));
+                match again.outcome {
+                    super::net::Outcome::TimedOut if again.bytes.is_empty() => BinaryAnswer::Silent,
+                    super::net::Outcome::Closed | super::net::Outcome::Reset(_) => BinaryAnswer::Served(ServeOut { out: again.bytes, result: Ok(Ok(())), write_calls: 0, flush_calls: 0 }),
+                    other => { BINARY_TROUBLE.with(|t| t.borrow_mut().push(format!("{:?} after {} response bytes (second attempt)", other, again.bytes.len()))); BinaryAnswer::Unavailable }
+                }
+            }
+            other => { BINARY_TROUBLE.with(|t| t.borrow_mut().push(format!("{:?} after {} response bytes", other, x.bytes.len()))); BinaryAnswer::Unavailable }
         }
     })
+}
+
+/// None when no binary is running on this thread, or when the exchange did not complete (recorded as trouble: inconclusive, never a verdict).
+pub fn serve_binary(req: &[u8]) -> Option<ServeOut> {
+    match serve_binary_checked(req) {
+        BinaryAnswer::Served(o) => Some(o),
+        BinaryAnswer::Silent => { BINARY_TROUBLE.with(|t| t.borrow_mut().push("no response bytes within the limit, twice".to_string())); None }
+        BinaryAnswer::Unavailable => None,
+    }
 }
 
 /// `binary` cases go to the running binary when there is one, everything else (and every fallback) to Server::process on the mock transport.
